@@ -87,8 +87,8 @@ def _run(ctx, tmp):
     cases.append(('corpus', [0.1, 0.2, 0.3], 100.0, ''))
     # long records (the format has no length limit): every value on its own line also beyond any block size
     # … including lengths that are exact multiples of plausible block sizes (powers of ten and of two) and their neighbours
-    for n_long in ((5001, 10001, 1000, 2000, 1024, 4096, 999, 100, 200, 256, 512, 10000) if quick else
-                   (5001, 10001, 20000, 65537, 1000, 2000, 3000, 1024, 2048, 4096, 8192, 999, 1001, 100, 200, 256, 512, 10000, 16384, 65536)):
+    for n_long in ((5001, 10001, 1000, 2000, 1024, 4096, 999, 100, 200, 256, 512, 10000, 131073) if quick else
+                   (5001, 10001, 20000, 65537, 1000, 2000, 3000, 1024, 2048, 4096, 8192, 999, 1001, 100, 200, 256, 512, 10000, 16384, 65536, 131073, 262145, 300000)):
         cases.append(('long', [((j * 37) % 2001 - 1000) / 64.0 for j in range(n_long)], 0.01, 'long record'))
     # the grid of the design: n x dt, labels and value kinds rotating
     idx = 0
